@@ -87,6 +87,18 @@ def process_answer(association, message):
     logging.debug(f"[{message.header.hop_by_hop.hex()}] Processed Diameter Answer.")
 
 
+def first_avp_of_each_code(message):
+    """The validators below count the mandatory AVPs they recognise. Every
+    AVP code takes part once: a repeated AVP (e.g. a second Host-IP-Address)
+    must not make up for a mandatory AVP that failed its validation (e.g. an
+    Origin-Host which is not the configured peer).
+    """
+    first = dict()
+    for avp in message.avps:
+        first.setdefault(avp.code, avp)
+    return list(first.values())
+
+
 class ProcessDiameterMessage:
     @staticmethod
     def process_answer_from_existing_pending_request(association, message):
@@ -319,7 +331,7 @@ class ProcessCapabilityExchange():
 
 
     def process_request(self):
-        for avp in self.message.avps:
+        for avp in first_avp_of_each_code(self.message):
             if ProcessDiameterMessage.is_valid_origin_host_avp(avp, self.connection):
                 self.checklist_mandatory_avps += 1
 
@@ -347,7 +359,7 @@ class ProcessCapabilityExchange():
 
     def process_answer(self):
         ProcessDiameterMessage.process_answer_from_existing_pending_request(self.association, self.message)
-        for avp in self.message.avps:
+        for avp in first_avp_of_each_code(self.message):
             if ProcessDiameterMessage.is_valid_result_code_avp(avp):
                 self.checklist_mandatory_avps += 1
 
@@ -397,7 +409,7 @@ class ProcessDeviceWatchdog():
 
 
     def process_request(self):
-        for avp in self.message.avps:
+        for avp in first_avp_of_each_code(self.message):
             if ProcessDiameterMessage.is_valid_origin_host_avp(avp, self.connection):
                 self.checklist_mandatory_avps += 1
 
@@ -417,7 +429,7 @@ class ProcessDeviceWatchdog():
     def process_answer(self):
         ProcessDiameterMessage.process_answer_from_existing_pending_request(self.association, self.message)
 
-        for avp in self.message.avps:
+        for avp in first_avp_of_each_code(self.message):
             if ProcessDiameterMessage.is_valid_result_code_avp(avp):
                 self.checklist_mandatory_avps += 1
 
@@ -458,7 +470,7 @@ class ProcessDisconnectPeer():
 
 
     def process_request(self):
-        for avp in self.message.avps:
+        for avp in first_avp_of_each_code(self.message):
             if ProcessDiameterMessage.is_valid_origin_host_avp(avp, self.connection):
                 self.checklist_mandatory_avps += 1
 
@@ -478,7 +490,7 @@ class ProcessDisconnectPeer():
     def process_answer(self):
         ProcessDiameterMessage.process_answer_from_existing_pending_request(self.association, self.message)
 
-        for avp in self.message.avps:
+        for avp in first_avp_of_each_code(self.message):
             if ProcessDiameterMessage.is_valid_result_code_avp(avp):
                 self.checklist_mandatory_avps += 1
 
